@@ -66,6 +66,7 @@ struct RouterSession : Session {
     // pins / junctions / hyperedges / nudging (C10-C12)
     void addPins(Sh &sh, const Json &op);
     void onReshape(Sh &sh, const Poly &old, const Json &op);
+    bool reshapeKeepsPinsApart(const Sh &sh, const Poly &np);      // two pins of one shape must not end up on one point
     bool extraOp(const Json &op, const std::string &o, std::string &ex, bool &edited);
     void extraChecks(const char *when);
     void checkPins(const char *when);
